@@ -124,17 +124,19 @@ def run_scenario(ctx, idx, scn, schedules, max_events, timeout):
         res.append(("count", "reference_commits", sum(1 for e in lr if e[0] == "commit")))
 
         def one(k):
-            cores, delays, invert = schedules[k]
+            cores, delays, invert = schedules[k][:3]
+            rel, slow = (schedules[k] + (0, False))[3:5]
             w = os.path.join(base, f"mp{k}")
             os.makedirs(w, exist_ok=True)
             spec = {"scenario": with_mediator(scn, "multi_process_mediator", cores), "workdir": w, "seed": seed,
                     "out": os.path.join(w, "log.json"), "max_events": max_events, "delays": delays, "invert": invert,
-                    "schedule": k}
+                    "schedule": k, "after_release_ms": rel, "slow_out_states": slow}
             return k, launch("mp", spec, timeout)
         with ThreadPoolExecutor(3) as ex:
             for k, (R, st) in ex.map(one, range(len(schedules))):
-                cores, delays, invert = schedules[k]
-                wit = {"scenario": scn, "seed": seed, "cores": cores, "delays": delays, "invert": invert, "schedule": k}
+                cores, delays, invert = schedules[k][:3]
+                wit = {"scenario": scn, "seed": seed, "cores": cores, "delays": delays, "invert": invert, "schedule": k,
+                       "after_release_ms": (schedules[k] + (0, False))[3], "slow_out_states": (schedules[k] + (0, False))[4]}
                 res.append(("case", (label, seed, k)))
                 if st == "deadlock":
                     res.append(("violation", "C20:deadlock", f"[{label}, {cores} cores, schedule {k}] no process of the run "
@@ -194,6 +196,11 @@ def main(ctx):
         for i, s in enumerate(scns):
             schedules = [(rng.choice([2, 3, 4, 8, 16]), rng.choice([0, 1, 1, 3]), rng.random() < 0.4) for _ in range(nsched)]
             schedules[0] = (2, 0, False)
+            # worker descheduled right after releasing the semaphore (up to 40 ms); slow pre-computed out-states (> 0.1 s)
+            schedules[1] = (rng.choice([3, 4, 8]), 1, False, 40, False)
+            schedules[2] = (rng.choice([4, 8, 16]), 0, False, 0, True)
+            if len(schedules) > 4:
+                schedules[3] = (rng.choice([2, 3]), 1, True, 25, False)
             futs.append(ex.submit(run_scenario, ctx, i, s, schedules, ctx.pick(400, 3000), ctx.pick(300, 1200)))
         for f in futs:
             for r in f.result():
@@ -223,7 +230,7 @@ def replay(acc, w):
 
     class C(object):
         seed = 0
-    sched = [(x["cores"], x["delays"], x["invert"])] * 3
+    sched = [(x["cores"], x["delays"], x["invert"], x.get("after_release_ms", 0), x.get("slow_out_states", False))] * 3
     for r in run_scenario(C(), 998, x["scenario"], sched, 3000, 600):
         if r[0] == "violation":
             acc.violation(r[1], r[2], r[3])
